@@ -17,6 +17,9 @@ func checkC02(c *Ctx, r *Report) {
 	wireAssumptions(r)
 	ruleWSE(c, r)
 	ruleTWRAP(c, r)
+	for _, sp := range mp4Codecs {
+		reportCodecPart(r, c, analyseCodec(c, sp), "size")
+	}
 	ruleSMEMBER(c, r)
 	if n := ruleLiveSize(c, r); n < 30 {
 		r.Undecided("T-LIVE", "scope", "", fmt.Sprintf("only %d container types found", n))
